@@ -432,7 +432,8 @@ DER_HOWS = ['pad_r', 'pad_s', 'long_seq_len', 'long_int_len', 'trailing_in', 'tr
             'neg_unpadded', 'wrong_seq_tag', 'wrong_int_tag', 'seq_len_short', 'seq_len_long']
 MODES = ['valid', 'valid', 'high_s', 'crafted_small_s', 'crafted_s_edge', 'half_nonce', 'half_nonce_small_s',
          'z_plus_n', 'r_zero', 's_zero', 'r_n', 's_n', 'r_plus_n', 's_plus_n', 'r_max', 's_max', 'rs_random',
-         'r_negated', 'wrong_key', 'z_plus_1', 'z_minus_1', 'z_bitflip', 'der_variant', 'der_variant',
+         'r_negated', 'wrong_key', 'z_plus_1', 'z_minus_1', 'z_bitflip', 'der_variant', 'der_variant', 'der_variant',
+         'der_variant', 'der_variant',
          'offcurve_pk_comp', 'offcurve_pk_uncomp', 'forged_z0_offcurve', 'pk_alias']
 SMALL_CURVE_XS = [1, 2, 3, 4, 6, 8, 12, 13, 14, 16, 20, 22, 25, 27, 32, 33, 38, 39]
 
